@@ -273,7 +273,7 @@ func (w *World) checkCallers(r *Report, rule string, ref fref, allowed map[strin
 }
 
 func checkC04(w *World, r *Report) {
-	r.Explanation = "Structural clause of C04: (N-1) Account.CheckNonce is an equality guard; commonValidation1 applies it to (ctx.Sender, ctx.Tx.Nonce) and its error returns before any controller runs; (N-2) Account.Nonce is written only by AddNonce (+1), SetNonce, Decode and constructors, AddNonce is called only from postRunTrx and SetNonce only from StateDBWrapper.Finish; (N-3) a decision table over (tx type, receiver-has-code, exec) evaluated on the CFGs of runTrx and postRunTrx shows that exactly the transactions routed to a native controller pass exactly one AddNonce on ctx.Sender followed by SetAccountCommittable(ctx.Sender, ctx.Exec) on every success path, and exactly those routed to the EVM pass none; (N-4) on the EVM route the transaction's own nonce reaches the EVM message with nonce checking enabled (isFake=false) and Finish copies the EVM's nonce back for every accessed address before marking the account; (N-5) the set of accessed addresses that Finish writes back is maintained exactly: every address entering the access list is synchronised in and recorded, RevertToSnapshot forgets exactly those recorded after the snapshot (C17 E-1, E-2); (N-6) the nonce the guard compares with is the one the last successful transaction wrote: the account ledger answers every read with the latest pending write of that key, whatever happens to other keys in between (C18 L-1); (N-7) no copy of an account decoded afresh from the committed tree is written into an overlay over the overlay's own object, which may carry a nonce raised earlier in the block (C01 D-6 stale-copy); (N-8) a contract transaction that fails leaves nothing in the wrapper's record of synchronised addresses: revert to the pre-transaction snapshot, then Finish (C05 A-4)."
+	r.Explanation = "Structural clause of C04: (N-1) Account.CheckNonce is an equality guard; commonValidation1 applies it to (ctx.Sender, ctx.Tx.Nonce) and its error returns before any controller runs; (N-2) Account.Nonce is written only by AddNonce (+1), SetNonce, Decode and constructors, AddNonce is called only from postRunTrx and SetNonce only from StateDBWrapper.Finish; (N-3) a decision table over (tx type, receiver-has-code, exec) evaluated on the CFGs of runTrx and postRunTrx shows that exactly the transactions routed to a native controller pass exactly one AddNonce on ctx.Sender followed by SetAccountCommittable(ctx.Sender, ctx.Exec) on every success path, and exactly those routed to the EVM pass none; (N-4) on the EVM route the transaction's own nonce reaches the EVM message with nonce checking enabled (isFake=false) and Finish copies the EVM's nonce back for every accessed address before marking the account; (N-5) the set of accessed addresses that Finish writes back is maintained exactly: every address entering the access list is synchronised in and recorded, RevertToSnapshot forgets exactly those recorded after the snapshot (C17 E-1, E-2); (N-6) the nonce the guard compares with is the one the last successful transaction wrote: the account ledger answers every read with the latest pending write of that key, whatever happens to other keys in between (C18 L-1); (N-7) no copy of an account decoded afresh from the committed tree is written into an overlay over the overlay's own object, which may carry a nonce raised earlier in the block (C01 D-6 stale-copy); (N-8) a contract transaction that fails leaves nothing in the wrapper's record of synchronised addresses: revert to the pre-transaction snapshot, then Finish (C05 A-4). N-8 also requires every success exit of an executed EVM-routed transaction to pass Snapshot, Prepare, the message application and Finish: nonce and fee of these transactions are consumed there and nowhere else."
 	r.NotCovered = "the arithmetic consequence 'at most once over a history' (follows from N-1..4, not itself computed); go-ethereum's own nonce check and increment; reverts on failure (C05 A-4)."
 	n1(w, r)
 	n2(w, r)
